@@ -208,10 +208,10 @@ def self_test():
         raise SelfTestError('semantic oracle misses truncated subtraction')
     # the whole per-case check accepts a correct conversion and rejects doctored ones
     H = harness.Ctx(ID)
-    case = {'kind': 'conv', 'conv': 'nat.norm_full', 'theory': 'nat', 't': L.render(e1, 'nat'), 'conds': []}
+    case = {'kind': 'conv', 'conv': 'selftest.identity', 'theory': 'nat', 't': L.render(e1, 'nat'), 'conds': []}
     run_case(case, H)
-    if H.violations:
-        raise SelfTestError('check flags nat.norm_full on (x+1)*(x+Suc 0): %s' % list(H.violations))
+    if H.violations or H.evaluations != 1:
+        raise SelfTestError('check flags the reflexivity conversion on (x+1)*(x+Suc 0): %s' % list(H.violations))
     for fake, want in (('selftest.wrong_lhs', 'lhs-differs'), ('selftest.wrong_value', 'sides-disagree'),
                        ('selftest.extra_hyp', 'foreign-hypothesis'), ('selftest.bad_eval', 'eval-differs'),
                        ('selftest.own_gap', 'foreign-gap')):
@@ -261,31 +261,30 @@ def _selftest_convs():
     from kernel.term import Eq, Var
     from kernel.type import BoolType
 
+    # doctored conversions built from kernel primitives only (independent of the conversions under test)
     class wrong_lhs(conv.Conv):
         def get_proof_term(self, t):
-            return nat.norm_full().get_proof_term(t.arg1)
+            return ProofTerm.reflexive(t.arg1)
 
     class wrong_value(conv.Conv):
         def get_proof_term(self, t):
-            return ProofTerm('nat_norm', Eq(t, t.arg1))
+            return ProofTerm.sorry(Thm(Eq(t, t.arg1)))
 
     class extra_hyp(conv.Conv):
         def get_proof_term(self, t):
             P = Var('P', BoolType)
-            pt = nat.norm_full().get_proof_term(t)
-            return pt.implies_intr(P).implies_elim(ProofTerm.assume(P))
+            return ProofTerm.reflexive(t).implies_intr(P).implies_elim(ProofTerm.assume(P))
 
     class bad_eval(conv.Conv):
         def eval(self, t):
-            return Thm(Eq(t, t))
+            return Thm(Eq(t, t.arg1))
 
         def get_proof_term(self, t):
-            return nat.norm_full().get_proof_term(t)
+            return ProofTerm.reflexive(t)
 
     class own_gap(conv.Conv):
         def get_proof_term(self, t):
-            pt = nat.norm_full().get_proof_term(t)
-            return ProofTerm.sorry(Thm(pt.prop))
+            return ProofTerm.sorry(Thm(Eq(t, t)))
 
     class identity(conv.Conv):
         def get_proof_term(self, t):
